@@ -57,7 +57,11 @@ pub trait Fam: 'static {
     type M<'a>: Clone;
     type Item: PartialEq + Debug;
 
-    fn gen_setup(rng: &mut Rng, tier: Tier) -> Self::Setup;
+    fn gen_setup(rng: &mut Rng, tier: Tier, prop: &str) -> Self::Setup;
+    /// free mode (C01 only): no model comparison, only the containment/UTF-8 invariants
+    fn m_is_free(_m: &Self::M<'_>) -> bool {
+        false
+    }
     fn shrink_setup(s: &Self::Setup) -> Vec<Self::Setup>;
     fn datum(s: &Self::Setup) -> Self::Datum;
     fn m_new<'a>(s: &Self::Setup, d: &'a Self::Datum) -> Self::M<'a>;
@@ -155,7 +159,7 @@ impl<F: Fam> World for IterWorld<F> {
     const NAME: &'static str = F::WORLD;
 
     fn generate(rng: &mut Rng, cfg: &GenCfg) -> Self::Case {
-        let setup = F::gen_setup(rng, cfg.tier);
+        let setup = F::gen_setup(rng, cfg.tier, &cfg.prop);
         let d = F::datum(&setup);
         let d: &F::Datum = &d;
         let thorough = cfg.tier == Tier::Thorough;
@@ -298,6 +302,19 @@ fn exec<F: Fam>(case: &ICase<F::Setup>, ctx: &mut Ctx) -> Res {
                     }
                 };
                 let some = got.is_some();
+                if F::m_is_free(m) {
+                    // free mode: konst's answer is only subject to the C01 invariants
+                    if let Some((g, nk)) = got {
+                        if c01 {
+                            if let Some(why) = F::escaped(&g) {
+                                return Err(viol("item-escapes-datum", i, format!("{op:?} yielded {:?}: {why}", g)));
+                            }
+                        }
+                        *k = nk;
+                    }
+                    ctx.cov.step(mix(mix(mix(sid, rem), op.id()), some as u64), some);
+                    continue;
+                }
                 match (exp, got) {
                     (Some(e), Some((g, nk))) => {
                         if c01 {
@@ -382,7 +399,7 @@ fn exec<F: Fam>(case: &ICase<F::Setup>, ctx: &mut Ctx) -> Res {
                         }
                     }
                 }
-                if prop_on && g != e {
+                if prop_on && !F::m_is_free(m) && g != e {
                     return Err(viol("remainder-mismatch", i, format!("observer returned {:?}, the std iterator reports {:?}", g, e)));
                 }
                 ctx.cov.step(mix(mix(sid, rem), op.id()), false);
